@@ -31,13 +31,13 @@ ALL_OPS = {"listen", "connect", "accept", "write", "read", "shutdown", "close", 
 
 # invariants of KTcpProp per property: pure (verdict on real observations) ...
 PURE = {
-    "C06": ["PrefixInv", "EofOnlyAtEnd", "NoSpuriousAbort", "BoundedProgress"],
+    "C06": ["PrefixInv", "EofOnlyAtEnd", "NoSpuriousAbort", "BoundedProgress", "AcceptOffered"],
     "C16": ["CapsOk", "MssOk", "WindowOk", "UdpOk"],
     "C13": ["AcceptOnce", "ConnectRule", "Reclaimed", "ConnectCompletes", "AcceptOffered", "AcceptWoken"],
 }
 # ... and with the recorded family set aside (needs the ImplSpec state)
 TOLERANT = {
-    "C06": ["PrefixInv", "EofOnlyAtEnd", "AbortOrKnown", "ProgressOrKnown"],
+    "C06": ["PrefixInv", "EofOnlyAtEnd", "AbortOrKnown", "ProgressOrKnown", "AcceptOffered"],
     "C16": PURE["C16"],
     "C13": PURE["C13"],
 }
@@ -215,6 +215,9 @@ def random_configs(pid, tier, seed):
                           nconn=2, maxdrops=1, maxage=0, maxbytes=6, wmax=2, rmax=2, steps=160)]
         base.append(dict(c=consts(MaxP=1, Mss=2, SendCap=4, RecvCap=4, Backlog=1), mode="simclose", nconn=1, maxdrops=1, maxage=0,
                          maxbytes=6, wmax=3, rmax=3, steps=0, closeprob=20))
+        # one lost handshake segment (mostly the connector's bare ACK), idle connector, acceptor speaks first
+        base.append(dict(c=consts(MaxP=1, Mss=2, SendCap=4, RecvCap=4, Backlog=1, RetxT=2, RetxMax=2, PremD=1), mode="hsackloss", nconn=1,
+                         maxdrops=1, maxage=0, maxbytes=2, wmax=2, rmax=2, steps=0))
         # constant delay of 2 rounds, no loss, one small record per round for > T*(retx_max+1) rounds
         base.append(dict(c=consts(MaxP=1, Mss=2, SendCap=16, RecvCap=16, Backlog=1, RetxT=3, RetxMax=5, PremD=0, PremAge=2),
                          mode="pipeline", nconn=1, maxdrops=0, maxage=2, maxbytes=200, wmax=2, rmax=8, steps=0))
@@ -555,6 +558,8 @@ def run(pid, tier, seed, replay=None):
         reuse_scenario(ck, w)
     if pid == "C06":
         wrap_scenario(ck, w, 3 if tier == "quick" else 8)
+    if pid == "C13":
+        portwrap_scenario(ck, w)
 
     if known_state.get("d4") and not known_state.get("printed"):
         ck.known("D4", D4_WHAT + " (reproduced in a recorded random walk)")
@@ -657,6 +662,24 @@ def wrap_scenario(ck, w, conns):
                       "unmatched": pr.unmatched, "tlc": vlib.counterexample_text(pr, 2500)})
 
 
+def portwrap_scenario(ck, w):
+    """Ephemeral-port wrap on the real allocator: 16 382 cancelled connects move the connector host's port cursor
+    to the top of 49152..=65535 (SYNs discarded by the wire), then 4 connections are opened at the same time
+    across the wrap, accepted and closed. PropSpec verdict (every connect Ok, accept once, reclaimed)."""
+    c = consts(MaxP=4, Mss=2, SendCap=4, RecvCap=4, Backlog=4, RetxT=2, RetxMax=1, PremD=0, PremAge=0)
+    tp = os.path.join(w, "portwrap.ndjson")
+    args = ["portwrap", "conns=4", "burn=16382"] + harness_args(c)
+    out = vlib.run_driver("ktcp", args + [f"out={tp}"], timeout=600)
+    pr = run_prop_trace("C13", tp, c, "C13_portwrap")
+    ck.add_tlc(pr, "trace_portwrap")
+    ck.traces += 1
+    ck.evaluations += count_lines(tp)
+    log(f"[C13] portwrap: {out.strip()} -> prop {'ok' if not rejected(pr) else 'REJECTED'}")
+    if rejected(pr):
+        ck.violation({"kind": "portwrap", "property": "C13", "args": args, "consts": jsonable(c), "violated_clause": pr.violated,
+                      "unmatched": pr.unmatched, "tlc": vlib.counterexample_text(pr, 2500)})
+
+
 def do_replay(ck, path):
     rp = json.load(open(path))
     pid = ck.pid
@@ -681,6 +704,8 @@ def do_replay(ck, path):
             log(f"[{pid}] replay: trace accepted by the PropSpec" + (" (known D4 family reproduced)" if known_state.get("d4") else ""))
     elif rp["kind"] == "wrap":
         wrap_scenario(ck, w, 3)
+    elif rp["kind"] == "portwrap":
+        portwrap_scenario(ck, w)
     else:
         reuse_scenario(ck, w)
     ck.states = max(ck.states, 1)
